@@ -117,7 +117,8 @@ def run_script(script):
         return {"events": [list(e) for e in ev], "future": state, "end_ms": loop.ms()}
 
     try:
-        return qloop.run_q(body, seed=sched.get("seed", 0), shuffle=sched.get("shuffle", False), jitter_ms=sched.get("jitter_ms", 0))
+        with qloop.watchdog(10):
+            return qloop.run_q(body, seed=sched.get("seed", 0), shuffle=sched.get("shuffle", False), jitter_ms=sched.get("jitter_ms", 0))
     except Exception as e:  # noqa
         return {"error": f"{type(e).__name__}: {e}"}
 
